@@ -25,8 +25,12 @@ type c16Ctx struct {
 	Parent *c16Ctx
 	Call   ssa.CallInstruction // *ssa.Call or (replayed) *ssa.Defer
 	Fn     *ssa.Function
-	depth  int
-	id     int
+	// Closure: for a call of a function value, the MakeClosure it resolved to (in
+	// the context where it was created): free variables are bound there, which
+	// need not be the calling context (callbacks: withLock(func(){...})).
+	Closure c16V
+	depth   int
+	id      int
 }
 
 // c16V is an SSA value in a context.
@@ -139,6 +143,26 @@ func c16Build(p *Prog, root *ssa.Function) *c16G {
 	}
 	g.build(root, nil)
 	g.Entry = g.first[c16bk{nil, root.Blocks[0]}]
+	g.finalize()
+	// a branch whose condition resolves to a constant in its context (the result
+	// of an inlined callback that always returns true, a constant argument seen
+	// through a temporary) has one feasible successor: prune and recompute
+	for round := 0; round < 3 && g.pruneConst(); round++ {
+		g.finalize()
+	}
+	sort.Strings(g.Unfollowed)
+	return g
+}
+
+// finalize drops unreachable blocks and (re)computes indices, exits and dominators.
+func (g *c16G) finalize() {
+	g.where = map[c16N]*c16B{}
+	g.reach = map[*c16B]map[*c16B]bool{}
+	g.valMemo = map[c16V]c16V{}
+	g.Exits = nil
+	for _, b := range g.Blocks {
+		b.idom = nil
+	}
 	// prune unreachable blocks
 	seen := map[*c16B]bool{}
 	var order []*c16B
@@ -226,8 +250,51 @@ func c16Build(p *Prog, root *ssa.Function) *c16G {
 			}
 		}
 	}
-	sort.Strings(g.Unfollowed)
-	return g
+}
+
+// pruneConst removes the infeasible successor of every branch whose condition
+// is a constant; reports whether anything changed.
+func (g *c16G) pruneConst() bool {
+	changed := false
+	for _, b := range g.Blocks {
+		if len(b.Ns) == 0 || len(b.Succs) != 2 || b.Succs[0] == b.Succs[1] {
+			continue
+		}
+		ifi, ok := b.Ns[len(b.Ns)-1].In.(*ssa.If)
+		if !ok {
+			continue
+		}
+		cv, br := g.Val(c16V{ifi.Cond, b.Ctx}), true
+		for {
+			if u, ok := cv.V.(*ssa.UnOp); ok && u.Op == token.NOT {
+				cv, br = g.Val(c16V{u.X, cv.Ctx}), !br
+				continue
+			}
+			break
+		}
+		k, ok := cv.V.(*ssa.Const)
+		if !ok || k.Value == nil || (k.Value.String() != "true" && k.Value.String() != "false") {
+			continue
+		}
+		drop := 0 // successor index to remove
+		if (k.Value.String() == "true") == br {
+			drop = 1
+		}
+		dead := b.Succs[drop]
+		b.Succs = []*c16B{b.Succs[1-drop]}
+		var ps []*c16B
+		removed := false
+		for _, q := range dead.Preds {
+			if q == b && !removed {
+				removed = true
+				continue
+			}
+			ps = append(ps, q)
+		}
+		dead.Preds = ps
+		changed = true
+	}
+	return changed
 }
 
 func (g *c16G) newB(sb *ssa.BasicBlock, ctx *c16Ctx, seg int) *c16B {
@@ -242,45 +309,137 @@ func c16Link(a, b *c16B) {
 }
 
 // inlinable returns the callee to splice in for a call occurrence, or nil.
-func (g *c16G) inlinable(ci ssa.CallInstruction, ctx *c16Ctx) *ssa.Function {
+func (g *c16G) inlinable(ci ssa.CallInstruction, ctx *c16Ctx) (*ssa.Function, c16V) {
 	cc := ci.Common()
 	if cc.IsInvoke() {
-		return nil
+		return nil, c16V{}
 	}
 	if _, ok := cc.Value.(*ssa.Builtin); ok {
-		return nil
+		return nil, c16V{}
 	}
+	var closure c16V
 	callee := staticCallee(ci)
-	if callee == nil {
-		// a call of a function value whose target is not syntactically known
-		g.Unfollowed = append(g.Unfollowed, "dynamic call in "+c16CtxName(g, ctx))
-		return nil
-	}
-	if callee.Pkg == nil || callee.Pkg != g.Root.Pkg {
-		if par := callee.Parent(); par == nil || par.Pkg != g.Root.Pkg {
-			return nil // other package: modelled by the rules (or irrelevant)
+	if callee != nil {
+		if _, ok := cc.Value.(*ssa.MakeClosure); ok {
+			closure = c16V{cc.Value, ctx}
+		}
+	} else {
+		// a function value: follow it to where it comes from — a parameter bound to a
+		// closure / function at an inlined call site (callbacks), a local assigned
+		// once, a func-typed field assigned once in the package
+		v := g.Res(c16V{cc.Value, ctx})
+		if tgt, ok := g.funcField(v); ok {
+			v = tgt
+		}
+		switch x := v.V.(type) {
+		case *ssa.Function:
+			callee = origin(x)
+		case *ssa.MakeClosure:
+			if f, ok := x.Fn.(*ssa.Function); ok {
+				callee, closure = origin(f), v
+			}
+		}
+		if callee == nil {
+			g.Unfollowed = append(g.Unfollowed, "dynamic call in "+c16CtxName(g, ctx))
+			return nil, c16V{}
 		}
 	}
+	if _, _, isIfaceBound := c16BoundIface(closure); isIfaceBound {
+		return nil, c16V{} // x.M of an interface value: a method call the rules model
+	}
+	samePkg := callee.Pkg != nil && callee.Pkg == g.Root.Pkg
+	if !samePkg {
+		if par := callee.Parent(); par != nil && par.Pkg == g.Root.Pkg {
+			samePkg = true
+		}
+		// bound-method / thunk wrappers of this package's methods
+		if callee.Synthetic != "" && callee.Object() != nil && callee.Object().Pkg() == g.Root.Pkg.Pkg {
+			samePkg = true
+		}
+	}
+	if !samePkg {
+		return nil, c16V{} // other package: modelled by the rules (or irrelevant)
+	}
 	if len(callee.Blocks) == 0 {
-		return nil
+		return nil, c16V{}
 	}
 	d := 0
 	for c := ctx; c != nil; c = c.Parent {
 		d++
 		if c.Fn == callee {
 			g.Unfollowed = append(g.Unfollowed, "recursive call of "+callee.Name())
-			return nil
+			return nil, c16V{}
 		}
 	}
 	if callee == g.Root {
 		g.Unfollowed = append(g.Unfollowed, "recursive call of "+callee.Name())
-		return nil
+		return nil, c16V{}
 	}
 	if d >= c16MaxDepth {
 		g.Unfollowed = append(g.Unfollowed, "call of "+callee.Name()+" beyond the inlining depth")
-		return nil
+		return nil, c16V{}
 	}
-	return callee
+	return callee, closure
+}
+
+// c16BoundIface: v is a bound method value x.M where x is an interface value
+// (the wrapper invokes M dynamically).
+func c16BoundIface(v c16V) (string, ssa.Value, bool) {
+	mc, ok := v.V.(*ssa.MakeClosure)
+	if !ok {
+		return "", nil, false
+	}
+	name, recv, ok := c16Bound(mc)
+	if !ok {
+		return "", nil, false
+	}
+	if _, isIface := recv.Type().Underlying().(*types.Interface); !isIface {
+		return "", nil, false
+	}
+	return name, recv, true
+}
+
+// funcField: v is a load of a func-typed struct field that is assigned exactly
+// once in the package, with a function or a closure without captured
+// variables; returns that target.
+func (g *c16G) funcField(v c16V) (c16V, bool) {
+	u, ok := v.V.(*ssa.UnOp)
+	if !ok || u.Op != token.MUL {
+		return c16V{}, false
+	}
+	fa, ok := u.X.(*ssa.FieldAddr)
+	if !ok {
+		return c16V{}, false
+	}
+	if _, isFunc := u.Type().Underlying().(*types.Signature); !isFunc {
+		return c16V{}, false
+	}
+	id := fieldIDOfAddr(fa)
+	var tgt ssa.Value
+	n := 0
+	for _, fn := range g.P.Funcs {
+		if fn.Pkg != g.Root.Pkg && (fn.Parent() == nil || fn.Parent().Pkg != g.Root.Pkg) {
+			continue
+		}
+		allInstrs(fn, func(in ssa.Instruction) {
+			if st := c16FieldStore(in, id); st != nil {
+				n++
+				tgt = st.Val
+			}
+		})
+	}
+	if n != 1 {
+		return c16V{}, false
+	}
+	switch x := tgt.(type) {
+	case *ssa.Function:
+		return c16V{x, nil}, true
+	case *ssa.MakeClosure:
+		if len(x.Bindings) == 0 {
+			return c16V{x, nil}, true
+		}
+	}
+	return c16V{}, false
 }
 
 func c16CtxName(g *c16G, ctx *c16Ctx) string {
@@ -299,12 +458,12 @@ func (g *c16G) build(fn *ssa.Function, ctx *c16Ctx) {
 		}
 	})
 	splice := func(cur *c16B, n c16N, sb *ssa.BasicBlock, seg *int) *c16B {
-		callee := g.inlinable(n.In.(ssa.CallInstruction), ctx)
+		callee, closure := g.inlinable(n.In.(ssa.CallInstruction), ctx)
 		if callee == nil {
 			return cur
 		}
 		g.nctx++
-		cctx := &c16Ctx{Parent: ctx, Call: n.In.(ssa.CallInstruction), Fn: callee, id: g.nctx}
+		cctx := &c16Ctx{Parent: ctx, Call: n.In.(ssa.CallInstruction), Fn: callee, Closure: closure, id: g.nctx}
 		g.inl[n] = cctx
 		g.build(callee, cctx)
 		*seg++
@@ -718,7 +877,7 @@ func (g *c16G) Res(v c16V) c16V {
 			if v.Ctx == nil {
 				return v
 			}
-			mc, ok := v.Ctx.Call.Common().Value.(*ssa.MakeClosure)
+			mc, ok := v.Ctx.Closure.V.(*ssa.MakeClosure)
 			if !ok {
 				return v
 			}
@@ -731,7 +890,7 @@ func (g *c16G) Res(v c16V) c16V {
 			if idx < 0 || idx >= len(mc.Bindings) {
 				return v
 			}
-			v = c16V{mc.Bindings[idx], v.Ctx.Parent}
+			v = c16V{mc.Bindings[idx], v.Ctx.Closure.Ctx}
 		case *ssa.UnOp:
 			if x.Op != token.MUL {
 				return v
@@ -1557,26 +1716,99 @@ func c16FieldByType(named *types.Named, what, hint string, pred func(t types.Typ
 	if !ok {
 		undecided("anchor type %s is no longer a struct", named.Obj().Name())
 	}
-	var cands []string
-	for i := 0; i < st.NumFields(); i++ {
-		if pred(st.Field(i).Type()) {
-			cands = append(cands, st.Field(i).Name())
+	// the field may sit in a nested (embedded or named, value or pointer) struct
+	// of the same package: state grouped into a sub-struct
+	var cands []FieldID
+	var visit func(t types.Type, st *types.Struct, depth int)
+	visit = func(t types.Type, st *types.Struct, depth int) {
+		for i := 0; i < st.NumFields(); i++ {
+			ft := st.Field(i).Type()
+			if pred(ft) {
+				cands = append(cands, FieldID{namedKey(t), st.Field(i).Name()})
+				continue
+			}
+			if depth >= 3 {
+				continue
+			}
+			inner := deref(ft)
+			if n, isNamed := inner.(*types.Named); isNamed && (n.Obj().Pkg() == nil || n.Obj().Pkg() != named.Obj().Pkg()) {
+				continue // a type of another package (sync.Mutex, …)
+			}
+			if ist, isStruct := inner.Underlying().(*types.Struct); isStruct {
+				visit(inner, ist, depth+1)
+			}
 		}
 	}
-	tkey := named.Obj().Pkg().Path() + "." + named.Obj().Name()
+	visit(named, st, 0)
 	switch len(cands) {
 	case 0:
 		undecided("type %s has no field playing the role %q", named.Obj().Name(), what)
 	case 1:
-		return FieldID{tkey, cands[0]}
+		return cands[0]
 	}
 	for _, c := range cands {
-		if c == hint {
-			return FieldID{tkey, c}
+		if c.Field == hint {
+			return c
 		}
 	}
 	undecided("type %s has %d candidate fields for the role %q (%v)", named.Obj().Name(), len(cands), what, cands)
 	return FieldID{}
+}
+
+// c16EachField visits the fields of named and of its nested same-package structs.
+func c16EachField(named *types.Named, f func(name string, t types.Type)) {
+	var visit func(st *types.Struct, depth int)
+	visit = func(st *types.Struct, depth int) {
+		for i := 0; i < st.NumFields(); i++ {
+			ft := st.Field(i).Type()
+			f(st.Field(i).Name(), ft)
+			if depth >= 3 {
+				continue
+			}
+			inner := deref(ft)
+			if n, isNamed := inner.(*types.Named); isNamed && (n.Obj().Pkg() == nil || n.Obj().Pkg() != named.Obj().Pkg()) {
+				continue
+			}
+			if ist, isStruct := inner.Underlying().(*types.Struct); isStruct {
+				visit(ist, depth+1)
+			}
+		}
+	}
+	if st, ok := named.Underlying().(*types.Struct); ok {
+		visit(st, 0)
+	}
+}
+
+// c16FieldByTypeName: like c16FieldByType but restricted to the field called name.
+func c16FieldByTypeName(named *types.Named, what, name string, pred func(t types.Type) bool) FieldID {
+	var id FieldID
+	found := false
+	var visit func(t types.Type, st *types.Struct, depth int)
+	visit = func(t types.Type, st *types.Struct, depth int) {
+		for i := 0; i < st.NumFields(); i++ {
+			ft := st.Field(i).Type()
+			if pred(ft) && st.Field(i).Name() == name {
+				id, found = FieldID{namedKey(t), name}, true
+			}
+			if depth >= 3 {
+				continue
+			}
+			inner := deref(ft)
+			if n, isNamed := inner.(*types.Named); isNamed && (n.Obj().Pkg() == nil || n.Obj().Pkg() != named.Obj().Pkg()) {
+				continue
+			}
+			if ist, isStruct := inner.Underlying().(*types.Struct); isStruct {
+				visit(inner, ist, depth+1)
+			}
+		}
+	}
+	if st, ok := named.Underlying().(*types.Struct); ok {
+		visit(named, st, 0)
+	}
+	if !found {
+		undecided("type %s has no field %s playing the role %q", named.Obj().Name(), name, what)
+	}
+	return id
 }
 
 func c16HasMethod(t types.Type, name string) bool {
@@ -1646,6 +1878,27 @@ func (g *c16G) Escapes(f FieldID, elem bool, modelled ...string) string {
 					}
 				}
 			}
+		case *ssa.Store:
+			// the value is put into memory the analysis does not track (an element of
+			// a local slice/array literal, a field of another struct, a map, …)
+			switch x.Addr.(type) {
+			case *ssa.IndexAddr:
+				args, name = []ssa.Value{x.Val}, "a slice/array element (local aggregate)"
+			case *ssa.FieldAddr:
+				if fieldIDOfAddr(x.Addr.(*ssa.FieldAddr)) == f {
+					return
+				}
+				args, name = []ssa.Value{x.Val}, "a field of another object"
+			default:
+				return
+			}
+			if elem {
+				return // list elements are moved between slots by the list operations themselves
+			}
+		case *ssa.MapUpdate:
+			args, name = []ssa.Value{x.Value}, "a map"
+		case *ssa.Send:
+			args, name = []ssa.Value{x.X}, "a channel"
 		case *ssa.MakeClosure:
 			if _, _, ok := c16Bound(x); ok {
 				return // a bound interface method: recognised by MethodCall when called
@@ -1659,6 +1912,9 @@ func (g *c16G) Escapes(f FieldID, elem bool, modelled ...string) string {
 			return
 		}
 		for _, a := range args {
+			if mi, isMI := a.(*ssa.MakeInterface); isMI {
+				a = mi.X
+			}
 			v := g.Val(c16V{a, n.Ctx})
 			hit := g.IsFieldLoad(v, f)
 			if fa, ok := v.V.(*ssa.FieldAddr); ok && fieldIDOfAddr(fa) == f {
